@@ -120,6 +120,8 @@ pub struct DicParams {
     pub homographs: usize,
     /// with probability 1/16 the matrix is 181..260 wide (more than 32,767 cells), costs declared in the far cells too
     pub big_matrix: bool,
+    /// compounds of 31..127 units (the split arrays are length-prefixed with one byte)
+    pub many_units: bool,
 }
 
 impl DicParams {
@@ -144,6 +146,7 @@ impl DicParams {
             boundaries: false,
             homographs: 127,
             big_matrix: false,
+            many_units: true,
         }
     }
 }
@@ -233,7 +236,7 @@ struct CompoundSpec {
 }
 
 fn compound_spec() -> BoxedStrategy<CompoundSpec> {
-    (prop_oneof![12 => vec(any::<u16>(), 2..=3), 1 => (any::<u16>(), 126usize..=127).prop_map(|(u, n)| vec![u; n])], any::<u16>(), any::<u16>(), costs(), any::<u16>(), 0u8..3, 0u8..4, any::<bool>())
+    (prop_oneof![12 => vec(any::<u16>(), 2..=3), 1 => (any::<u16>(), select(vec![31usize, 32, 33, 62, 63, 64, 65, 100, 126, 127])).prop_map(|(u, n)| vec![u; n])], any::<u16>(), any::<u16>(), costs(), any::<u16>(), 0u8..3, 0u8..4, any::<bool>())
         .prop_map(|(units, left, right, cost, pos, style, with_b, ws)| CompoundSpec { units, left, right, cost, pos, style, with_b, ws })
         .boxed()
 }
@@ -355,7 +358,7 @@ fn build_entries(
         let unit_entries: Vec<Entry> = units.iter().map(|(o, n)| get(*o, *n, &out)).collect();
         // split units must be indexable words for the split to make sense; keep them whatever they are
         let key: String = unit_entries.iter().map(|e| e.key.as_str()).collect();
-        if units.len() > 3 && (!p.boundaries || key.len() > 600) {
+        if units.len() > 3 && (!(p.boundaries || p.many_units) || key.len() > 600) {
             continue;
         }
         if units.len() <= 3 && !p.boundaries && key.chars().count() > 12 {
